@@ -410,18 +410,37 @@ fn mode_c11sweep(args: &std::collections::HashMap<String, String>) -> Value {
         u16::from_ne_bytes(b)
     };
     let chain = arg_u64(args, "chain", 0);
+    let only_watched = arg_u64(args, "only-watched", 0) == 1;
+    let mut opens_during_updates = 0u64;
+    let mut open_violations = 0u64;
     let mut g0 = shard;
     while g0 < 65536 {
         let g0v = g0 as u16;
         file.write_at(&g0v.to_ne_bytes(), 14).unwrap();
         let seen: std::rc::Rc<std::cell::RefCell<Vec<(String, usize, u16)>>> = Default::default();
+        // A client that attaches while this update runs (C16: once the daemon has published, clients
+        // can open the segment): a fresh open at every point of the update, for start values around
+        // the wrap, the smallest ones and a sample of the others.
+        let watch_opens = g0v != 0 && (g0v >= 65500 || g0v <= 8 || g0 % 509 == 3);
+        if only_watched && !watch_opens {
+            g0 += nshards;
+            continue;
+        }
+        let open_failures: std::rc::Rc<std::cell::RefCell<Vec<String>>> = Default::default();
         {
             let seen = seen.clone();
             let f = file.try_clone().unwrap();
+            let of = open_failures.clone();
+            let opath = CString::new(path.to_str().unwrap()).unwrap();
             set_handler(Some(Box::new(move |p: &Point| {
                 let mut b = [0u8; 2];
                 f.read_at(&mut b, 14).unwrap();
                 seen.borrow_mut().push((p.site.to_string(), p.word, u16::from_ne_bytes(b)));
+                if watch_opens {
+                    if let Err(e) = ShmReader::new(&opath) {
+                        of.borrow_mut().push(format!("{}[{}] (generation field reads {}): {:?}", p.site, p.word, u16::from_ne_bytes(b), e));
+                    }
+                }
             })));
         }
         let rec = encode(g0 + 10);
@@ -429,6 +448,15 @@ fn mode_c11sweep(args: &std::collections::HashMap<String, String>) -> Value {
         set_handler(None);
         let after = read_gen(&file);
         evaluations += 1;
+        if watch_opens {
+            opens_during_updates += seen.borrow().len() as u64;
+            if let Some(first) = open_failures.borrow().first() {
+                if open_violations < 5 {
+                    open_violations += 1;
+                    violations.push(json!({"sig": "open-fails-while-the-daemon-updates", "detail": format!("a published segment at generation {}: a client opening it during the next update was refused at {} of {} points, first at {}", g0v, open_failures.borrow().len(), seen.borrow().len(), first), "replay": ""}));
+                }
+            }
+        }
         let seen = seen.borrow().clone();
         observations += seen.len() as u64;
         let mut bad: Vec<String> = Vec::new();
@@ -525,7 +553,7 @@ fn mode_c11sweep(args: &std::collections::HashMap<String, String>) -> Value {
     }
     drop(writer);
     let _ = std::fs::remove_dir_all(&dir);
-    json!({"evaluations": evaluations, "republished": republished, "observations": observations, "classes": parities, "chain_steps": chain_steps, "wrap_crossings": wraps, "violations": violations, "samples": samples})
+    json!({"evaluations": evaluations, "republished": republished, "observations": observations, "classes": parities, "chain_steps": chain_steps, "wrap_crossings": wraps, "opens_during_updates": opens_during_updates, "violations": violations, "samples": samples})
 }
 
 /// C03: long sequential histories — readers that sleep through many publications, the wrap.
